@@ -150,6 +150,51 @@ pub fn res_json(world: &Wd) -> Value {
     })
 }
 
+/// `World::extend` with a batch written with the `entities!` macro.  form "clone": `entities!((..); n)`
+/// (all rows are clones of the first); form "tuples": `entities!((..), (..), ..)` with 1..3 rows.
+/// Only a fixed set of written orders is available (the macro needs the shape at compile time).
+pub fn macro_extend(world: &mut Wd, form: &str, order: &[u8], rows: &[[u32; NC]]) -> Vec<Identifier> {
+    use brood::entities;
+    let n = rows.len();
+    macro_rules! clone_form {
+        ($($c:ident $i:literal),*) => {{
+            assert!(rows.iter().all(|r| r == &rows[0]) || n == 0, "harness: clone form needs equal rows");
+            let z = [0u32; NC];
+            let v = if n > 0 { &rows[0] } else { &z };
+            let b = entities!(($($c::fresh(v[$i])),*); n);
+            heap::lib(|| world.extend(b))
+        }};
+    }
+    macro_rules! tuple_form {
+        ($($c:ident $i:literal),*) => {{
+            match n {
+                1 => { let b = entities!(($($c::fresh(rows[0][$i])),*)); heap::lib(|| world.extend(b)) }
+                2 => { let b = entities!(($($c::fresh(rows[0][$i])),*), ($($c::fresh(rows[1][$i])),*)); heap::lib(|| world.extend(b)) }
+                3 => { let b = entities!(($($c::fresh(rows[0][$i])),*), ($($c::fresh(rows[1][$i])),*), ($($c::fresh(rows[2][$i])),*)); heap::lib(|| world.extend(b)) }
+                _ => panic!("harness: tuple form supports 1..3 rows"),
+            }
+        }};
+    }
+    match (form, order) {
+        ("clone", []) => { let b = entities!((); n); heap::lib(|| world.extend(b)) }
+        ("clone", [2]) => clone_form!(S 2),
+        ("clone", [3, 2]) => clone_form!(W 3, S 2),
+        ("clone", [4, 1, 0]) => clone_form!(H 4, B 1, Z 0),
+        ("clone", [8, 2]) => clone_form!(T8 8, S 2),
+        ("tuples", []) => match n {
+            1 => { let b = entities!(()); heap::lib(|| world.extend(b)) }
+            2 => { let b = entities!((), ()); heap::lib(|| world.extend(b)) }
+            3 => { let b = entities!((), (), ()); heap::lib(|| world.extend(b)) }
+            _ => panic!("harness: tuple form supports 1..3 rows"),
+        },
+        ("tuples", [2]) => tuple_form!(S 2),
+        ("tuples", [3, 2]) => tuple_form!(W 3, S 2),
+        ("tuples", [4, 1, 0]) => tuple_form!(H 4, B 1, Z 0),
+        ("tuples", [8, 2]) => tuple_form!(T8 8, S 2),
+        _ => panic!("harness: no macro batch for {form} {order:?}"),
+    }
+}
+
 pub struct Driver {
     pub ws: Vec<Option<Slot>>,
     pub out: Box<dyn Write>,
@@ -411,7 +456,11 @@ impl Driver {
                 let rows: Vec<[u32; NC]> = op["rows"].as_array().unwrap().iter().map(Self::vals_of).collect();
                 let extra = op.get("extra").and_then(|x| x.as_u64()).unwrap_or(0) as usize;
                 let s = self.slot(w);
-                let ids = shapes::extend(&mut s.world, &order, &rows, extra);
+                let ids = match op.get("form").and_then(|f| f.as_str()) {
+                    // the batch written with the entities! macro (tuple list / component tuple + count)
+                    Some(form) => macro_extend(&mut s.world, form, &order, &rows),
+                    None => shapes::extend(&mut s.world, &order, &rows, extra),
+                };
                 s.issued.extend(ids.iter().copied());
                 json!({"res": {"ids": ids.iter().map(|i| idj(*i)).collect::<Vec<_>>()}})
             }
